@@ -3,6 +3,7 @@ package props
 import (
 	"context"
 	"fmt"
+	"runtime"
 	"strings"
 	"sync"
 	"sync/atomic"
@@ -31,7 +32,7 @@ func init() {
 		Shards:    shards(8, 16),
 		Timeout:   timeouts(4*time.Minute, 40*time.Minute),
 		MinEvals:  50,
-		Required:  []string{"rounds", "replies_out_of_order", "abandoned_then_answered_late", "error_replies", "wrap_runs", "tag_wraps_observed", "pinned_tags_skipped_checks", "calls_returned_own_uid"},
+		Required:  []string{"rounds", "replies_out_of_order", "abandoned_then_answered_late", "error_replies", "wrap_runs", "tag_wraps_observed", "pinned_tags_skipped_checks", "calls_returned_own_uid", "abandoned_during_write", "pin_bursts_below_notag"},
 		Run:       runC05,
 	})
 }
@@ -56,6 +57,11 @@ func runC05(w *mon.W) {
 		}
 		runC05Rounds(w, i)
 	}
+	for i := 0; i < w.Scale(24, 600); i++ {
+		if w.Mine(i) {
+			runC05AbandonedWrite(w, i)
+		}
+	}
 	wraps := w.Scale(1, 5)
 	for i := 0; i < wraps*w.NShards; i++ {
 		if !w.Mine(i) {
@@ -65,7 +71,12 @@ func runC05(w *mon.W) {
 		if !w.Thorough() && i >= 3 {
 			continue
 		}
-		runC05Wrap(w, i, []int{1, 17, 200}[i%3], w.Scale(70000, 200000))
+		L := []int{1, 17, 200}[i%3]
+		total := w.Scale(70000, 200000)
+		if L == 1 {
+			total = 210000 // three passes over the tag space: the run pinned just below NOTAG is met twice
+		}
+		runC05Wrap(w, i, L, total)
 	}
 }
 
@@ -309,6 +320,9 @@ func runC05Wrap(w *mon.W, no, L, total int) {
 	inflight := map[p9p.Tag]int{}
 	pinUIDs := map[int]bool{}
 	abandonOnArrival := map[int]context.CancelFunc{}
+	burstNow := make(chan struct{}, 1)
+	burstAsked := false
+	var gate sync.RWMutex // workers hold it shared around each call; the burst takes it exclusively
 	var lastTag = -1
 	wraps := 0
 	seen := 0
@@ -335,6 +349,13 @@ func runC05Wrap(w *mon.W, no, L, total int) {
 			wraps++
 		}
 		lastTag = int(fc.Tag)
+		if fc.Tag == 0xFFF4 && !burstAsked {
+			burstAsked = true
+			select {
+			case burstNow <- struct{}{}:
+			default:
+			}
+		}
 		if pinUIDs[u] {
 			pinned[fc.Tag] = fc
 			if cancel := abandonOnArrival[u]; cancel != nil {
@@ -396,7 +417,9 @@ func runC05Wrap(w *mon.W, no, L, total int) {
 				}
 				uid := k*per + i + 1
 				kind := callKind((uid) % int(nCallKinds))
+				gate.RLock()
 				r := doCall(ctx, h.sess, kind, uid)
+				gate.RUnlock()
 				if r.err != nil || r.uid != uid {
 					if atomic.LoadInt32(&tearingDown) == 0 {
 						w.Violate("mismatch", "C05:crossed-reply", fmt.Sprintf("wrap run: call uid=%d returned uid=%d err=%v", uid, r.uid, r.err), nil)
@@ -406,6 +429,30 @@ func runC05Wrap(w *mon.W, no, L, total int) {
 			}
 		}(k)
 	}
+	// a run of long-outstanding calls on consecutive tags ending just below NOTAG (and
+	// continuing at 0, 1): issued with the workers paused so that the tags are adjacent
+	go func() {
+		<-burstNow
+		gate.Lock()
+		mu.Lock()
+		before := len(pinned)
+		mu.Unlock()
+		const burst = 14
+		for i := 0; i < burst; i++ {
+			issuePin(5000 + i)
+		}
+		for k := 0; k < 5000000; k++ {
+			mu.Lock()
+			n := len(pinned)
+			mu.Unlock()
+			if n >= before+burst {
+				break
+			}
+			runtime.Gosched()
+		}
+		gate.Unlock()
+		w.Count("pin_bursts_below_notag", 1)
+	}()
 	done := make(chan struct{})
 	go func() { wg.Wait(); close(done) }()
 	q := mon.AwaitQuiesceLong(done, 25*time.Minute)
@@ -464,4 +511,77 @@ func runC05Wrap(w *mon.W, no, L, total int) {
 	}
 	mu.Unlock()
 	w.Sample(map[string]interface{}{"wrap_run": no, "long_outstanding_calls": L, "requests": seen, "tag_wraps": wraps, "pinned_tags_at_end": nPinned})
+}
+
+// runC05AbandonedWrite: a caller abandons its call while the transport is still writing
+// the request, and the write then fails. The caller has long returned; every other call on
+// the session must still return exactly once with its own reply.
+func runC05AbandonedWrite(w *mon.W, no int) {
+	h := newCliH(0, 1<<20)
+	defer h.close()
+	w.Case("C05 abandoned-during-write #%d", no)
+	if err := h.dial(); err != nil {
+		w.Inconclusive("dial: %v", err)
+		return
+	}
+	w.Eval()
+	w.Count("abandoned_during_write", 1)
+	_, w0 := h.fault.Counts()
+	h.fault.WriteFailAt = w0 + 1
+	h.fault.WriteFailOnce = true
+	h.fault.WriteGate = make(chan struct{})
+	h.fault.WriteParked = make(chan struct{})
+	actx, acancel := context.WithCancel(context.Background())
+	var ares callRes
+	adone := make(chan struct{})
+	go func() { ares = doCall(actx, h.sess, ckStat, 1); close(adone) }()
+	<-h.fault.WriteParked // A's request is being written
+	acancel()
+	if q := mon.AwaitQuiesce(adone); !q.Done {
+		w.Violate("hang", "C05:abandon-during-write:cancelled-call-did-not-return", "a call cancelled while its request was being written did not return", nil)
+		close(h.fault.WriteGate)
+		return
+	}
+	_ = ares
+	close(h.fault.WriteGate) // now the write fails, nobody is waiting for its outcome
+	settle()
+	// other callers: served normally
+	h.mu.Lock()
+	h.onReq = func(fc *p9p.Fcall) { h.reply(replyFor(fc, uidOfRequest(fc))) }
+	h.mu.Unlock()
+	n := 2 + w.Rng.Intn(4)
+	var wg sync.WaitGroup
+	var mu sync.Mutex
+	bad := ""
+	for i := 0; i < n; i++ {
+		wg.Add(1)
+		go func(uid int) {
+			defer wg.Done()
+			r := doCall(context.Background(), h.sess, callKind(uid%int(nCallKinds)), uid)
+			// after a failed write the channel's buffered writer stays failed, so these
+			// calls may well return the write error — what matters is that each returns, once,
+			// and with its own reply if it gets one
+			if r.err == nil && r.uid != uid {
+				mu.Lock()
+				bad = fmt.Sprintf("call uid=%d returned uid=%d", uid, r.uid)
+				mu.Unlock()
+			}
+		}(10 + i)
+	}
+	done := make(chan struct{})
+	go func() { wg.Wait(); close(done) }()
+	q := mon.AwaitQuiesce(done)
+	if q.Hung {
+		w.Violate("hang", "C05:abandon-during-write:others-never-return:"+q.Sites, fmt.Sprintf("after a call was abandoned during its write (which then failed) the other %d calls never return; blocked at %s", n, q.Sites), map[string]interface{}{"goroutines": mon.TrimDump(q.Dump, 6000)})
+		return
+	}
+	if q.Inconclusive {
+		return
+	}
+	if bad != "" {
+		w.Violate("mismatch", "C05:abandon-during-write:crossed-or-lost", bad, nil)
+		return
+	}
+	w.Count("calls_returned_own_uid", int64(n))
+	w.NT(fmt.Sprintf("abandoned-write/%d", n))
 }
